@@ -42,7 +42,8 @@ func (u *Unit) curMem(st *State, key string) Term {
 }
 
 func (u *Unit) isAllocAtom(t Term) bool {
-	return t.Op == "" && (strings.HasPrefix(t.A, "obj!") || strings.HasPrefix(t.A, "glob!"))
+	// fv_*: the cell of a captured variable (a whole object of its own)
+	return t.Op == "" && (strings.HasPrefix(t.A, "obj!") || strings.HasPrefix(t.A, "glob!") || strings.HasPrefix(t.A, "fv_"))
 }
 
 // distinctAddr: syntactic proof that two address terms differ.
